@@ -4,6 +4,8 @@ import (
 	"fmt"
 	"go/ast"
 	"go/token"
+	"go/types"
+	"reflect"
 	"sort"
 	"strings"
 
@@ -89,6 +91,44 @@ func (p *Program) runSweep(sw *Sweep) *Unit {
 			o := &Obligation{Name: "embed/" + v, Kind: "structure", Unit: u.name, Pos: u.posString(pos[v]), Desc: "package variable " + v + " embeds the file " + file + " (//go:embed)", Hyp: True, Goal: True, ctx: u.ctx, unit: u, Status: "discharged", Backend: "syntactic"}
 			if found[v] != file {
 				o.Desc += ": it embeds " + fmt.Sprintf("%q", found[v])
+				o.Goal, o.Status, o.Backend, o.Mark = False, "", "", u.ctx.Mark()
+			}
+			u.obls = append(u.obls, o)
+		}
+		return u
+	}
+	if sw.Kind == "jsontags" {
+		// sweep jsontags [Cxx] Type.Field=tag ...: the json struct tag of that field (of a
+		// type of the contract file's package) is exactly that text - the documented key,
+		// without options such as omitempty that make a row lose a field for some values.
+		// encoding/json reads the tag by reflection, outside SSA: checked on the declaration.
+		pk := p.typesPkgs[sw.PkgPath]
+		if pk == nil {
+			u.errs = append(u.errs, fmt.Sprintf("%s:%d: sweep jsontags: package %s not loaded", sw.File, sw.Line, sw.PkgPath))
+			return u
+		}
+		for _, pair := range sw.Pkgs {
+			lhs, want, ok := strings.Cut(pair, "=")
+			tn, fn, ok2 := strings.Cut(lhs, ".")
+			if !ok || !ok2 {
+				u.errs = append(u.errs, fmt.Sprintf("%s:%d: sweep jsontags: Type.Field=tag expected, got %q", sw.File, sw.Line, pair))
+				continue
+			}
+			got, found := "", false
+			var pos token.Pos
+			if obj := pk.Scope().Lookup(tn); obj != nil {
+				if st, isS := obj.Type().Underlying().(*types.Struct); isS {
+					for i := 0; i < st.NumFields(); i++ {
+						if st.Field(i).Name() == fn {
+							got, found = reflect.StructTag(st.Tag(i)).Get("json"), true
+							pos = st.Field(i).Pos()
+						}
+					}
+				}
+			}
+			o := &Obligation{Name: "jsontag/" + lhs, Kind: "structure", Unit: u.name, Pos: u.posString(pos), Desc: "field " + lhs + " is rendered under the JSON key `" + want + "` for every value (json struct tag)", Hyp: True, Goal: True, ctx: u.ctx, unit: u, Status: "discharged", Backend: "syntactic"}
+			if !found || got != want {
+				o.Desc += fmt.Sprintf(": its tag is %q", got)
 				o.Goal, o.Status, o.Backend, o.Mark = False, "", "", u.ctx.Mark()
 			}
 			u.obls = append(u.obls, o)
